@@ -11,6 +11,7 @@
 import sys, os, subprocess, json, shutil, time
 
 VERIF = os.path.dirname(os.path.dirname(os.path.abspath(__file__)))
+REPO = os.environ.get("TOODEE_REPO", "/repo")     # a scratch copy when set; the checks then build against it too
 
 
 def sh(cmd, cwd=None, env=None, timeout=1800):
@@ -56,10 +57,10 @@ def main():
     # --- 2. run the registered checks against /repo with the patch applied
     results = {}
     if confirmed:
-        rc, out = sh(f"git -C /repo status --porcelain --untracked-files=no")
+        rc, out = sh(f"git -C {REPO} status --porcelain --untracked-files=no") if os.path.isdir(os.path.join(REPO, ".git")) else (0, "")
         if out.strip():
             print("/repo is not clean; aborting", out); return 2
-        rc, out = sh(f"git -C /repo apply {patch}")
+        rc, out = sh(f"git -C {REPO} apply {patch}")
         if rc != 0:
             print("patch does not apply to /repo:", out); return 2
         try:
@@ -82,7 +83,7 @@ def main():
                                 os.makedirs(os.path.join(VERIF, "seeded", sid), exist_ok=True)
                                 shutil.copy(rp, os.path.join(VERIF, "seeded", sid, "replay_" + os.path.basename(rp)))
         finally:
-            sh("git -C /repo checkout -- .")
+            sh(f"git -C {REPO} apply -R {patch}")
     # --- 3. store
     dst = os.path.join(VERIF, "seeded", sid)
     os.makedirs(dst, exist_ok=True)
